@@ -274,7 +274,7 @@ MUST_REACH = ["lite_attribute_block_says_read_only", "new_message_appends_to_old
               "after_cut_not_readable", "retry_completed", "retry_cut",
               "lite_authenticated_reader_after_cut_in_data_phase",
               "lite_plain_reader_after_cut_in_data_phase"]
-BOUNDS = {"quick": "T2: 48- and 496-byte data areas, NDEF TLV at offsets 0..3 mod 4, old/new lengths on both sides of 254/255, cut before every WRITE; one repetition of the same write through the same tag object after the cut (Type 1 static/dynamic, Type 2, Type 3 and its emulation), itself cut at every point or completed; a momentary outage (the three attempts of one command unanswered, then the tag answers again) at every point",
+BOUNDS = {"quick": "T2: 48- and 496-byte data areas, NDEF TLV at offsets 0..3 mod 4, old/new lengths on both sides of 254/255, cut before every WRITE; one repetition of the same write through the same tag object after the cut (Type 1 static/dynamic, Type 2, Type 3 and its emulation), itself cut at every point or completed; a momentary outage (the three attempts of one command unanswered, then the tag answers again) at every point; added later: new messages that begin with the stored one or are a prefix of it (Type 1 dynamic, Type 2); a FeliCa Lite-S tag with RWFlag 00h rewritten by its authenticated owner",
           "thorough": "as quick with every new length for the 48-byte area"}
 OUTSIDE = ["torn writes inside one command", "tags that change memory on a failed command",
            "a repeated write after the cut on a Type 4 Tag (the ISO-DEP state after a failed exchange is the known finding of C12)",
